@@ -61,3 +61,11 @@ Print Assumptions C13_frontends_agree.
 
 Example C13_nonvacuous : atan2_spec atan2_c /\ 1 / 10000000000 < Rabs (-2) /\ 0 <= 6 < 2 * PI.
 Proof. exact roundtrip_hyps_example. Qed.
+
+(* the array / record constructor chooses the sign of dr with the kernel _fix_dr_sign: the same choice as the object constructor *)
+Theorem C13_array_constructor_dr_sign : forall atan2 charge m_pt m_phi m_pz px py pz x0 y0 z0,
+  k_fix_dr_sign (sqrt ((px - x0) * (px - x0) + (py - y0) * (py - y0))) (phys_phi0 charge m_pt m_phi m_pz px py pz x0 y0 z0)
+                (atan2 (py - y0) (px - x0))
+  = phys_dr atan2 charge m_pt m_phi m_pz px py pz x0 y0 z0.
+Proof. exact awk_fix_dr_sign_is_obj_choice. Qed.
+Print Assumptions C13_array_constructor_dr_sign.
